@@ -260,7 +260,7 @@ impl Model {
                 debug_assert_eq!(*m, self.memo_srcs.len());
                 self.memo_srcs.push(*src);
             }
-            Act::MemoCall { m, key, hid, fresh } => self.on_memo_call(at, *m, *key, *hid, *fresh),
+            Act::MemoCall { m, key, hid, fresh, prev_alive } => self.on_memo_call(at, *m, *key, *hid, *fresh, *prev_alive),
             Act::DropMemo { .. } => {}
             Act::IsStable { res } => self.on_is_stable(at, ctx, *res),
             Act::SetMaxHeight { .. } => {}
@@ -269,14 +269,22 @@ impl Model {
         }
     }
 
-    fn on_memo_call(&mut self, at: usize, m: usize, key: i64, hid: Hid, fresh: bool) {
-        // C20: while any reference to the node for `key` is alive the same node comes back and
-        // the underlying function is not called. The model tracks liveness conservatively: a
-        // node is certainly referenced while the driver holds it or while it is necessary.
-        if let Some(&prev) = self.memo_live.get(&(m, key)) {
-            let certainly_alive = self.nodes[prev].held || self.necessary.contains(&prev);
-            if certainly_alive && (fresh || hid != prev) {
-                viol!(self, at, "C20", "memo-identity", "memo {} key {}: node {} is still referenced but the call returned {} (underlying function called: {})", m, key, prev, hid as i64, fresh);
+    fn on_memo_call(&mut self, at: usize, m: usize, key: i64, hid: Hid, fresh: bool, prev_alive: Option<Hid>) {
+        // C20: while the node previously returned for `key` is still referenced anywhere (its
+        // weak handle still upgrades) the same node comes back and the underlying function is
+        // not called.
+        self.cov.memo_calls += 1;
+        if let Some(prev) = prev_alive {
+            self.cov.memo_hits += 1;
+            if fresh || hid != prev {
+                viol!(self, at, "C20", "memo-identity", "memo {} key {}: node {} is still referenced but the call returned node {} (underlying function called: {})", m, key, prev, hid as i64, fresh);
+            }
+        } else {
+            if !fresh {
+                viol!(self, at, "C20", "memo-stale-hit", "memo {} key {}: no node for this key is alive, yet the underlying function was not called", m, key);
+            }
+            if self.memo_live.contains_key(&(m, key)) {
+                self.cov.memo_recreated += 1;
             }
         }
         if hid == usize::MAX {
@@ -419,7 +427,14 @@ impl Model {
                     }
                 }
             }
-            EngineEv::Invalidate(_) | EngineEv::BecameUnnecessary(_) => {}
+            EngineEv::Invalidate(eid) => {
+                if let Some(&h) = self.by_engine.get(&eid) {
+                    if matches!(self.nodes[h].rk, RK::Memo { .. }) {
+                        viol!(self, at, "C20", "memo-node-invalidated", "node {} made by a memoised function was invalidated by the engine (it belongs to the scope the memoised function was created in)", h);
+                    }
+                }
+            }
+            EngineEv::BecameUnnecessary(_) => {}
         }
     }
 
